@@ -372,6 +372,12 @@ def _run_history(sc, want_idempotence=True, faults=None, audits=True):
                     and c not in before and c not in valid_before and c not in wr_all]
             if gone:
                 violations.append(viol('own.non-manifest-touched', '%s removed %r, a data file that only has a Manifest-like name' % (what, gone[:5]), sig='name-alike-removed'))
+            # a Manifest-LIKE name does not make a file a Manifest: only the five Manifest names or a MANIFEST reference do
+            alike = [c for c in changed if is_manifest_path(c) and os.path.basename(c) not in G.MANIFEST_NAMES and c not in before
+                     and c in snap0 and snap0[c][0] == 'file']
+            if alike:
+                violations.append(viol('own.non-manifest-touched', '%s changed or removed %r, data files that only have a Manifest-like name '
+                                       '(not one of the Manifest names, referenced by no Manifest)' % (what, alike[:5]), sig='name-alike-changed'))
             wev = [e for e in seam.write_events if e[0] >= opi - 2]
             bad = [e for e in wev if not all(is_manifest_path(p) for p in e[2].split(' -> '))]
             if bad:
